@@ -58,3 +58,82 @@ Proof. vm_compute. reflexivity. Qed.
 Print Assumptions C05_validate_panics_are_refusals.
 Print Assumptions C05_validate_panic_fails_the_answer.
 Print Assumptions C05_validate_panic_never_crashes.
+
+(** 2. (second follow-up) The end of the caller's context and Exchange.Stop while the call waits
+    ([ECtxDone] / [EStop] anywhere in the event list: with requests queued, in flight, answered).
+    Proofs: Oracle/C05.v (section "statements about the end events"). The correspondence driver
+    harness/c05 TestC05More places both events after the k-th processed answer of the real call. *)
+From GH Require Import Oracle.C05.
+
+(** While the call has not returned - whatever was dispatched, answered, re-queued so far, for ALL
+    event lists, verifiers, chunk sizes, peer sets - the end of the caller's context makes it
+    return the context's error and Exchange.Stop makes it return "exchange is closed". *)
+Theorem C05_waiting_call_is_ended_by_ctx_and_by_stop :
+  forall drift (tvp : hdr -> hdr -> tvres_p) maxcap per (from : hdr) (to : N) peers evs,
+  GetRangeByHeight_p drift tvp maxcap per from to peers evs = None ->
+  GetRangeByHeight_p drift tvp maxcap per from to peers (evs ++ [ECtxDone]) = Some (RErr ECtx) /\
+  GetRangeByHeight_p drift tvp maxcap per from to peers (evs ++ [EStop]) = Some (RErr EClosed).
+Proof. exact waiting_call_ends. Qed.
+
+(** A result is final: no later event (late answers of requests still in flight, the context's
+    end, Stop) changes what the call returned. *)
+Theorem C05_result_is_final :
+  forall drift (tvp : hdr -> hdr -> tvres_p) maxcap per (from : hdr) (to : N) peers evs more r,
+  GetRangeByHeight_p drift tvp maxcap per from to peers evs = Some r ->
+  GetRangeByHeight_p drift tvp maxcap per from to peers (evs ++ more) = Some r.
+Proof. exact result_is_final. Qed.
+
+(** The context's error is returned only if the context ended, "exchange is closed" only if Stop
+    was called: no answer of any peer can make the call fail with either of them. *)
+Theorem C05_ctx_and_closed_errors_need_their_event :
+  forall drift (tvp : hdr -> hdr -> tvres_p) maxcap per (from : hdr) (to : N) peers evs,
+  h_height from < two64 -> to < two64 -> 1 <= per ->
+  (GetRangeByHeight_p drift tvp maxcap per from to peers evs = Some (RErr ECtx) -> In ECtxDone evs) /\
+  (GetRangeByHeight_p drift tvp maxcap per from to peers evs = Some (RErr EClosed) -> In EStop evs).
+Proof. exact ctx_error_has_ctx_event. Qed.
+
+(** non-vacuity: Stop with one request answered, one in flight and one queued; the context's end
+    before any answer; a late answer after the context's end changes nothing *)
+Example C05_stop_mid_flight :
+  GetRangeByHeight_p 0%Z ex_tvp 100 1 (ex_hdr 10) 14 [0; 1]
+    [EDispatch 0 (Req 11 1); ERespond 0 5%Z [FHdr (ex_hdr 11)]; EDispatch 1 (Req 12 1); EStop]
+  = Some (RErr EClosed).
+Proof. vm_compute. reflexivity. Qed.
+
+Example C05_ctx_end_then_late_answer :
+  GetRangeByHeight_p 0%Z ex_tvp 100 3 (ex_hdr 10) 14 [0]
+    [EDispatch 0 (Req 11 3); ECtxDone; ERespond 0 5%Z [FHdr (ex_hdr 11); FHdr (ex_hdr 12); FHdr (ex_hdr 13)]]
+  = Some (RErr ECtx).
+Proof. vm_compute. reflexivity. Qed.
+
+(** 3. Consecutive calls on one Exchange. Whatever happens during a call, only peers of the set its
+    session was created with are ever idle or in flight (a request is handed to idle peers only);
+    the next call's session is created without the peers an earlier call blocked ([unblocked],
+    Oracle/C05.v: the peers whose answer doRequest refused with an error other than NOT_FOUND /
+    empty) - so a blocked peer is never asked again, for ALL event lists of the later call. *)
+Theorem C05_session_uses_only_its_peers :
+  forall drift (tvp : hdr -> hdr -> tvres_p) maxcap per (from : hdr) (to : N) peers evs x,
+  In x (known (run_p drift tvp maxcap from (get_range maxcap per from to peers) evs)) -> In x peers.
+Proof. exact session_uses_its_peers. Qed.
+
+Theorem C05_blocked_peer_is_not_asked_again :
+  forall (earlier : case05) drift (tvp : hdr -> hdr -> tvres_p) maxcap per (from : hdr) (to : N) peers evs x,
+  In x (blocked_by earlier) ->
+  ~ In x (known (run_p drift tvp maxcap from (get_range maxcap per from to (unblocked earlier peers)) evs)).
+Proof. exact blocked_peer_is_not_used_again. Qed.
+
+(** non-vacuity: no peer at all - the call waits (no result) until its context ends *)
+Example C05_zero_peers_waits :
+  GetRangeByHeight_p 0%Z ex_tvp 100 3 (ex_hdr 10) 14 nil nil = None.
+Proof. vm_compute. reflexivity. Qed.
+
+Example C05_zero_peers_waits_for_the_context :
+  GetRangeByHeight_p 0%Z ex_tvp 100 3 (ex_hdr 10) 14 nil [ECtxDone] = Some (RErr ECtx).
+Proof. vm_compute. reflexivity. Qed.
+
+Print Assumptions C05_waiting_call_is_ended_by_ctx_and_by_stop.
+Print Assumptions C05_result_is_final.
+Print Assumptions C05_ctx_and_closed_errors_need_their_event.
+Print Assumptions chk05m_sound.
+Print Assumptions C05_session_uses_only_its_peers.
+Print Assumptions C05_blocked_peer_is_not_asked_again.
